@@ -80,6 +80,11 @@ CHECKS = {
   technique='TLA+ spec InletOutlet.tla (1-D abstraction along the normal: property layer over histories; code-shaped mechanism MInlet/MOutlet) model-checked by TLC on several instances; histories of the real InletBase/OutletBase objects (manager and direct mode) decided by TLC (TraceInletOutlet.tla)',
   text='Particles with identity move along the interface normal by arbitrary integer displacements (several crossing at once, back-flow, bursts); TLC checks that the implementation-shaped updates satisfy exactly-once transfer, exact copies, recycling by one zone length, deletion past the far end, nothing else changing array and the particle-count equation for every history of small instances. Real inlet/outlet objects of all five SimpleInletOutlet families, with normals along every axis and diagonals in 1-3 dimensions, are driven through random histories on a lattice and every update call is decided by TLC.',
   note='A particle exactly on a plane may go either way; a particle carried past the far end of the outlet in one step may be absorbed or deleted. Lattice units >= 2^-8 (the implementation uses an absolute tolerance of 1e-6). Several fluid arrays and ghost arrays are not judged.'),
+ 'C14': dict(
+  cat='model_checking', design_ref='DESIGN.md section 5 (C14), 4.10',
+  technique='TLA+ spec Interp.tla (exact rational values of the documented Shepard / sph / splash sums and the order1 moment system on lattice data with a probe kernel; binding state machine) with InterpMC.tla model-checked by TLC; histories of the real Interpolator / SPHEvaluator decided by TLC (TraceInterp.tla)',
+  text='With a probe kernel whose values are exact on dyadic lattice data, every method has an exact rational value that Interp.tla computes; TLC proves the order-type clauses (bounds, constant reproduction, zero outside the support, linear reproduction where the moment matrix is provably regular) as theorems on small universes and checks that a binding state machine follows the current sources and points. Real Interpolator and SPHEvaluator objects (five methods, 1-3 D, several source arrays, periodic domains, explicit target points) are driven through histories of set_interpolation_points / update_particle_arrays / move+update / interpolate, and TLC compares every returned value with the specification; shipped kernels are checked for the order-type clauses.',
+  note='Floats are recorded as exact fractions (limit_denominator 2^15) plus a residual at 2^-40. order1 is judged by linear reproduction only. Automatic target grids are not driven.'),
 }
 
 NOT_APPLICABLE = {
